@@ -13,6 +13,7 @@ WORLDS = {
     "squeeth(eq)": lambda: catalog.squeeth_world("eq"),
     "squeeth(ne)": lambda: catalog.squeeth_world("ne"),
     "squeeth(eq,no-osqth-entry)": lambda: catalog.squeeth_world("eq", with_osqth=False),
+    "deribit+uni(closed)": lambda: catalog.deribit_uni_world(2, frozen_bar=1),
 }
 
 # worlds with moving data over several bars / several markets in one account (bar-by-bar properties: C01, C02, C05)
